@@ -1,6 +1,6 @@
 import Gallia.Lib.Proto
-import Gallia.Model.Client
-open Gallia Gallia.Proto Gallia.Client
+import Gallia.Model.ClientIO
+open Gallia Gallia.Proto Gallia.Client Gallia.ClientIO
 
 /-
   Line protocol of the C04 model driver.
@@ -14,6 +14,19 @@ open Gallia Gallia.Proto Gallia.Client
   Reply:  <outcome> <writes> <reads> <reconnects> <elapsed> <readsBound> <elapsedBound> <maxNT> <trace>
   outcome: reply:k | missing:0 | missing:1 | illegal:k | stuck | escaped:k
   trace:   `w`  `r<k>:<tmo>:<dur>`  `s<d>`  `c`   joined by `,`
+
+  Widened model (`Model/ClientIO.lean`, one `UDSClient.request()`):
+
+    runx <clientTimeout|none> <clientMaxRetry> <reqTimeout|none> <reqMaxRetry|none> <lat> <reads> <pad> <writes> <wpad> <reconnects> <rpad>
+
+  `writes`: what the j-th transport.write() does, letters o ok, T TimeoutError, C ConnectionError;
+  `reconnects`: what the m-th reconnect_unsafe() does, letters o ok, C ConnectionError, T TimeoutError, O OSError.
+
+  Reply:  <outcome> <writes> <writesOk> <reads> <reconnects> <elapsed> <readsBound> <elapsedBound> <maxNT> <trace>
+  outcome: as above | rcfail:<m>:<C|T|O>
+  trace:   `L` acquire, `U` release, `w:<tmo>:<o|T|C>:<dur>`, `r<k>:<tmo>:<dur>`, `s<d>`, `c:<o|C|T|O>`
+
+    readtmo <selfTimeout|none> <arg|none>      -> the timeout `UDSClient._read` hands to transport.read
 -/
 
 def evOfChar : Char → Option Ev
@@ -53,8 +66,73 @@ def showOp : Op → String
   | .sl d => s!"s{d}"
   | .rc => "c"
 
+def wevOfChar : Char → Option WEv
+  | 'o' => some .ok | 'T' => some .timeout | 'C' => some .connErr | _ => none
+
+def rcevOfChar : Char → Option RcEv
+  | 'o' => some .ok | 'C' => some (.fail .connErr) | 'T' => some (.fail .timeout) | 'O' => some (.fail .osErr) | _ => none
+
+/-- a comma separated list of letters with optional repeat counts -/
+def parseLetters {α} (f : Char → Option α) (s : String) : Option (Array α) :=
+  if s == "-" then some #[] else
+  (s.splitOn ",").foldl (fun acc it => match acc with
+    | none => none
+    | some a =>
+      match it.splitOn "*" with
+      | [l] => match l.toList with
+        | [ch] => (f ch).map a.push
+        | _ => none
+      | [l, n] => match l.toList, n.toNat? with
+        | [ch], some cnt => (f ch).map (fun x => a ++ (List.replicate cnt x).toArray)
+        | _, _ => none
+      | _ => none) (some #[])
+
+def showWEv : WEv → String | .ok => "o" | .timeout => "T" | .connErr => "C"
+def showRcFault : RcFault → String | .connErr => "C" | .timeout => "T" | .osErr => "O"
+def showRcEv : RcEv → String | .ok => "o" | .fail e => showRcFault e
+
+def showOutX : OutX → String
+  | .base o => showOut o
+  | .reconnectFailed m e => s!"rcfail:{m}:{showRcFault e}"
+
+def showOpX : OpX → String
+  | .wr t r d => s!"w:{showOptNat t}:{showWEv r}:{d}"
+  | .rd k t d => s!"r{k}:{showOptNat t}:{d}"
+  | .sl d => s!"s{d}"
+  | .rc r => s!"c:{showRcEv r}"
+
+def showReqOp : ReqOp → String
+  | .acquire => "L"
+  | .release => "U"
+  | .io o => showOpX o
+
+def one {α} (f : Char → Option α) (s : String) : Option α :=
+  match s.toList with
+  | [ch] => f ch
+  | _ => none
+
+def stepX (ct cm rt rm lat scr pad wscr wpad rscr rpad : String) : String :=
+  match parseOptNat ct, cm.toNat?, parseOptNat rt, parseOptNat rm, lat.toNat? with
+  | some ct, some cm, some rt, some rm, some lat =>
+    match parseScript scr, one evOfChar pad, parseLetters wevOfChar wscr, one wevOfChar wpad,
+        parseLetters rcevOfChar rscr, one rcevOfChar rpad with
+    | some rd, some rdPad, some wr, some wrPad, some rc, some rcPad =>
+      let c := resolveX ct cm rt rm lat Limits.std
+      let io : Script := ⟨fun j => wr.getD j wrPad, fun k => rd.getD k rdPad, fun m => rc.getD m rcPad⟩
+      let r := runX c io
+      let q := requestX c io
+      let tr := ",".intercalate (q.trace.map showReqOp)
+      s!"{showOutX q.out} {r.writes} {r.writesOk} {r.reads} {r.reconnects} {r.elapsed} {readsBound c.base} {elapsedBound c.base} {maxNTX c} {tr}"
+    | _, _, _, _, _, _ => "bad-op"
+  | _, _, _, _, _ => "bad-op"
+
 def step (line : String) : String :=
   match words line with
+  | ["runx", ct, cm, rt, rm, lat, scr, pad, wscr, wpad, rscr, rpad] => stepX ct cm rt rm lat scr pad wscr wpad rscr rpad
+  | ["readtmo", st, arg] =>
+    match parseOptNat st, parseOptNat arg with
+    | some st, some arg => showOptNat (readTmo st arg)
+    | _, _ => "bad-op"
   | ["run", ct, cm, rt, rm, lat, scr, pad] =>
     match ct.toNat?, cm.toNat?, parseOptNat rt, parseOptNat rm, lat.toNat?, parseScript scr, pad.toList with
     | some ct, some cm, some rt, some rm, some lat, some arr, [pc] =>
